@@ -248,4 +248,47 @@ theorem foldlM_missStep (b : Build) (rows : List Row) (ps : List (Nat × Row)) :
                 simp at hfl2
             | cons x t => simpa using this
 
+theorem zip_range_getElem? (rows : List Row) : ∀ p ∈ (List.range rows.length).zip rows, rows[p.1]? = some p.2 := by
+  intro p hp
+  obtain ⟨k, hk⟩ := List.getElem?_of_mem hp
+  rw [List.getElem?_zip_eq_some] at hk
+  obtain ⟨h1, h2⟩ := hk
+  rw [List.getElem?_range] at h1
+  · cases h1; exact h2
+  · have := (List.getElem?_eq_some_iff.mp h2).1; exact this
+
+theorem zip_range_pairwise (rows : List Row) : (((List.range rows.length).zip rows).map Prod.fst).Pairwise (· < ·) := by
+  rw [List.map_fst_zip (by simp)]
+  exact List.pairwise_lt_range
+
+theorem zip_range_snd (rows : List Row) : ((List.range rows.length).zip rows).map Prod.snd = rows := by
+  rw [List.map_snd_zip (by simp)]
+
+theorem missingRows_spec (b : Build) (rows out : List Row) (first : Option Nat)
+    (h : missingRows b rows = .ok (out, first)) :
+    fragmentsOf out = (fragmentsOf rows).filter (fun f => !dHas b.found f.keyTuple) ∧
+    (∀ g, Row.gap g ∈ out → GapOK b rows g) ∧
+    (∀ pr ∈ adjPairs out, pr ∈ adjPairs rows) ∧
+    (∀ g, out.head? ≠ some (.gap g)) ∧ (∀ g, out.getLast? ≠ some (.gap g)) ∧
+    first = (((List.range rows.length).zip rows).find? (isMissing b)).map Prod.fst := by
+  rw [missingRows_eq] at h
+  cases hf : ((List.range rows.length).zip rows).foldlM (missStep b rows) ([], none, none) with
+  | error e => rw [hf] at h; simp [bind, Except.bind] at h
+  | ok r =>
+    obtain ⟨o, la, fi⟩ := r
+    rw [hf] at h
+    simp only [bind, Except.bind, pure, Except.pure, Except.ok.injEq, Prod.mk.injEq] at h
+    obtain ⟨rfl, rfl⟩ := h
+    obtain ⟨c1, c2, c3, c4, c5, c6⟩ := foldlM_missStep b rows _ [] none none o la fi (zip_range_getElem? rows)
+      (zip_range_pairwise rows) (fun l hl => by cases hl) rfl hf
+    rw [zip_range_snd] at c1
+    refine ⟨by simpa [fragmentsOf] using c1, ?_, ?_, ?_, ?_, c5⟩
+    · intro g hg; rcases c2 g hg with h | h; simp at h; exact h
+    · intro pr hp; rcases c3 pr hp with h | h; simp at h; exact h
+    · intro g hg; simpa using c6 g hg
+    · intro g hg
+      cases la with
+      | none => have : o = [] := c4; subst this; simp at hg
+      | some l => obtain ⟨fl, _, h2⟩ := c4; rw [h2] at hg; cases hg
+
 end AgpTpf.C01
